@@ -54,6 +54,12 @@ EXC = {
 RETRYABLE = {"URLError", "HTTPError", "TimeoutError", "socket.timeout", "ContentTooShort"}
 
 
+def exc_name(step):
+    """'URLError' or 'URLError@partial' (raised after part of the body was written) -> 'URLError'; else None"""
+    name = step.split("@")[0]
+    return name if name in EXC else None
+
+
 class Sim:
     """Context manager installing the fake environment.
 
@@ -235,6 +241,12 @@ def scripted_transport(script, payloads):
             raise NetworkDown()
         if step in EXC:
             raise EXC[step]()
+        if exc_name(step):
+            # the connection breaks in the middle of the body: urlretrieve has already written part of the file
+            with open(path, "wb") as f:
+                f.write(data[:max(1, len(data) // 2)])
+            sim.boundary("download:within")
+            raise EXC[exc_name(step)]()
         if step == "corrupted":
             data = bytes([data[0] ^ 1]) + data[1:] if data else b"x"
         elif step == "truncated":
